@@ -74,6 +74,8 @@ type SignerSpec struct {
 	Label    string
 	// BadSig makes the witness invalid (signature of another payload).
 	BadSig bool
+	// Sends makes this signer the transaction's sender (first signer, pays the fees) in place of the neutral payer.
+	Sends bool
 }
 
 // Account returns signer's script hash.
@@ -325,16 +327,28 @@ func dedupSigners(signers []SignerSpec) []SignerSpec {
 	return res
 }
 
+// withPayer puts the neutral payer in front, unless one of the signers is marked as the sender: that one goes first then.
+func (w *World) withPayer(signers []SignerSpec) []SignerSpec {
+	for i, sg := range signers {
+		if sg.Sends {
+			all := []SignerSpec{sg}
+			all = append(all, signers[:i]...)
+			return append(all, signers[i+1:]...)
+		}
+	}
+	return append([]SignerSpec{{S: w.Payer, Scope: transaction.None}}, signers...)
+}
+
 // Prepare builds and signs a transaction calling contract.method(args) paid by
 // the neutral payer and witnessed by signers.
 func (w *World) Prepare(signers []SignerSpec, h util.Uint160, method string, args ...any) *Pending {
-	all := append([]SignerSpec{{S: w.Payer, Scope: transaction.None}}, signers...)
+	all := w.withPayer(signers)
 	return w.prepare(all, h, method, args, true)
 }
 
 // PrepareScript is Prepare for a raw script.
 func (w *World) PrepareScript(signers []SignerSpec, script []byte, label string) *Pending {
-	all := append([]SignerSpec{{S: w.Payer, Scope: transaction.None}}, signers...)
+	all := w.withPayer(signers)
 	return w.prepareScript(all, script, util.Uint160{}, label, nil, true)
 }
 
